@@ -75,6 +75,7 @@ type Server struct {
 	cond   *sync.Cond
 	inbox  []*msg
 	closed bool
+	shut   bool
 	// responses that arrived while another id was awaited (SendRequest / AwaitRaw)
 	stash map[int]*msg
 	// Diags is the folded client view: last publishDiagnostics per file
@@ -239,6 +240,10 @@ func (s *Server) reader() {
 
 // Close stops the server.
 func (s *Server) Close() {
+	if s.shut {
+		return
+	}
+	s.shut = true
 	s.cli.Close()
 	s.srv.Stop()
 	done := make(chan struct{})
